@@ -55,15 +55,22 @@ def run(C, R):
         for path in paths:
             if path.exit != 'return':
                 continue
-            ws = [e for e in path.events if e['k'] == 'write' and loc_endswith(e['loc'], 'state_id', '0')]
+            # writes of the id: the inner counter, or the whole StateId
+            ws = [e for e in path.events if e['k'] == 'write' and e['loc'][:1] == (('P', 'self'),) and
+                  fields_of(e['loc']) in (('state_id', '0'), ('state_id',))]
             okret = path.ret[0] == 'agg' and path.ret[2] == 'Ok'
             closed = const_of(E, path.facts, ('init', (('P', 'self'), 'is_closed')))
-            maxed = const_of(E, path.facts, ('bin', 'Eq', SELF_ID0, ('const', U64MAX)))
+            # `id == MAX` is excluded, in any spelling (id != MAX, !(id < MAX) == false, ...)
+            from common import eq_fact
+            maxed = eq_fact(E, path.facts, SELF_ID0, ('const', U64MAX))
+            if maxed is None and cmp_fact(E, path.facts, 'Lt', SELF_ID0, ('const', U64MAX)) == 1:
+                maxed = 0
+            final_id0 = E.read(type('S', (), {'store': path.store})(), (('P', 'self'), 'state_id', '0'))
             if okret:
                 stored = [e for e in path.events if e['k'] == 'write' and fields_of(e['loc']) == ('value',)
                           and e['val'][0] == 'agg' and e['val'][2] == 'Some' and contains(e['val'], ('param', 'value'))]
                 drained = [e for e in path.events if e['k'] == 'qop' and e['op'] in ('reverse_drain', 'drain')]
-                inc = len(ws) == 1 and ws[0]['val'] == ('bin', 'Add', SELF_ID0, ('const', 1))
+                inc = len(ws) == 1 and final_id0 == ('bin', 'Add', SELF_ID0, ('const', 1))
                 if inc and stored and drained and closed == 0 and maxed == 0:
                     R.ok('C13.R1', '%s|publish|%s' % (send['path'], path_cond(E, path)),
                          {'function': send['path'], 'id': 'state_id += 1', 'guards': '!is_closed & id != MAX',
